@@ -123,17 +123,8 @@ func ruleGFConstruction(pkgs ...string) func(c *Ctx) {
 				floor++
 				c.Fn(c.P.FuncName(fn))
 				key := fmt.Sprintf("%s/NewGaloisField#%d", c.P.FuncName(fn), k)
-				var a [3]int64
-				for i := 0; i < 3; i++ {
-					v, ok := constInt(call.Common().Args[i])
-					if !ok {
-						c.Undecided(R, key, call.Pos(), "non-constant argument")
-						return
-					}
-					a[i] = int64(v)
-				}
-				pp, size, base := a[0], a[1], a[2]
 				pk := shortName(fn.Pkg.Pkg.Path())
+				check := func(key string, pp, size, base int64) {
 				ok2 := size > 1 && size&(size-1) == 0 && polyDegree(pp) == bits.Len64(uint64(size))-1 && isPrimitive(pp) && (base == 0 || base == 1)
 				exp := "primitive polynomial of degree log2(size), base 0/1"
 				if w, has := want[pk][size]; has {
@@ -144,6 +135,59 @@ func ruleGFConstruction(pkgs ...string) func(c *Ctx) {
 					exp = "a field size the symbology uses"
 				}
 				c.Check(R, key, call.Pos(), ok2, exp, fmt.Sprintf("pp=%#x size=%d base=%d primitive=%v", pp, size, base, isPrimitive(pp)))
+				}
+				n := NewNormer(c.P)
+				n.FoldTables = true
+				constArgs := func() ([3]int64, bool) {
+					var a [3]int64
+					for i := 0; i < 3; i++ {
+						v, ok := n.Norm(call.Common().Args[i]).IsConst()
+						if !ok {
+							return a, false
+						}
+						a[i] = v
+					}
+					return a, true
+				}
+				if a, ok := constArgs(); ok {
+					check(key, a[0], a[1], a[2])
+					return
+				}
+				// arguments read out of an immutable table keyed by a parameter: one field per key
+				var keyV ssa.Value
+				var tbl *Val
+				for _, arg := range call.Common().Args {
+					v := arg
+					if ex, ok := v.(*ssa.Extract); ok {
+						v = ex.Tuple
+					}
+					if lk, ok := v.(*ssa.Lookup); ok {
+						if t, ok := n.tableVal(lk.X, 0); ok && t.Kind == VMap {
+							if _, isParam := lk.Index.(*ssa.Parameter); isParam {
+								keyV, tbl = lk.Index, t
+							}
+						}
+					}
+				}
+				if tbl == nil {
+					c.Undecided(R, key, call.Pos(), "non-constant argument")
+					return
+				}
+				for _, e := range tbl.Map {
+					if e.K.Kind != VInt {
+						c.Undecided(R, key, call.Pos(), "table key is not an integer")
+						return
+					}
+					n.env = append(n.env, map[ssa.Value]Poly{keyV: pConst(e.K.I)})
+					a, ok := constArgs()
+					n.env = n.env[:len(n.env)-1]
+					if !ok {
+						c.Undecided(R, fmt.Sprintf("%s@%d", key, e.K.I), call.Pos(), "non-constant argument")
+						continue
+					}
+					floor++
+					check(fmt.Sprintf("%s@%d", key, e.K.I), a[0], a[1], a[2])
+				}
 			})
 		}
 		c.Count["gf_call_sites"] = floor
